@@ -61,36 +61,42 @@ theorem C06_reentrant_no_deadlock (c : Cfg) (L : Nat) (hwf : WF c L) (eng : Nat 
         (step c eng s t).trace = s.trace ++ [.callBegin t tgt tag] :=
   C06P.reentrant c L hwf eng progs ms σ t
 
-/-- FULL STRENGTH (false for hierarchical machines, see the counterexample): every thread's events
-follow the grammar `callBegin · enter (all configured machine + model contexts, in order) · body ·
-exit (reverse order) · callEnd`, re-entrant calls enter nothing -/
-def ContextsHeldInOrder (c : Cfg) : Prop :=
-  ∀ (eng : Nat → Nat → Nat) (progs : Nat → List Op) (ms : Nat) (σ : List Nat),
-    contextsOrder (configured c) (runSched c eng (init progs ms) σ).trace = true
-
-/-- exclusion: the machine is flat, or no model has contexts of its own -/
-theorem C06_contexts_held_in_order_partial (c : Cfg) (L : Nat) (hwf : WF c L)
-    (hx : c.hsm = false ∨ ∀ p ∈ c.extra, p.2 = []) : ContextsHeldInOrder c :=
-  C06P.contexts_partial c L hwf hx
-
-/-- the witness: LockedHierarchicalMachine, model 0 with one context of its own, one thread, one event -/
-def hsmWitness : Cfg := { hsm := true, base := [], extra := [(0, [.user 7])] }
-
-theorem C06_contexts_held_in_order_counterexample : ¬ ContextsHeldInOrder hsmWitness :=
-  C06P.contexts_counterexample
+/-- contexts held in order, flat AND hierarchical machines: every thread's events follow the grammar
+`callBegin · enter (all configured machine + model contexts, in order) · body · exit (reverse order) ·
+callEnd`, re-entrant calls enter nothing (verified monitor `contextsOrder` against `configured c`) -/
+theorem C06_contexts_held_in_order (c : Cfg) (L : Nat) (hwf : WF c L) (eng : Nat → Nat → Nat)
+    (progs : Nat → List Op) (ms : Nat) (σ : List Nat) :
+    contextsOrder (configured c) (runSched c eng (init progs ms) σ).trace = true :=
+  C06P.contexts_held c L hwf eng progs ms σ
 
 /-- released, also on raise: a thread that is not inside a call owns no lock and is not `current`;
 and the monitor has seen all its contexts exited (`raised` calls unwind exactly like returning ones) -/
-theorem C06_released_on_raise (c : Cfg) (L : Nat) (hwf : WF c L)
-    (hx : c.hsm = false ∨ ∀ p ∈ c.extra, p.2 = []) (eng : Nat → Nat → Nat)
+theorem C06_released_on_raise (c : Cfg) (L : Nat) (hwf : WF c L) (eng : Nat → Nat → Nat)
     (progs : Nat → List Op) (ms : Nat) (σ : List Nat) (t : Nat) :
     let s := runSched c eng (init progs ms) σ
     (s.th t).frames = [] →
       s.current ≠ t + 1 ∧ (∀ l, s.owner l ≠ t + 1) ∧
       ∃ f, ctxMonRun (configured c) s.trace = some f ∧ f t = {} :=
-  C06P.released c L hwf hx eng progs ms σ t
+  C06P.released c L hwf eng progs ms σ t
 
 /-! non-vacuity -/
+
+/-- regression (former finding F-C06-hsm-model-context-ignored, fixed in /repo 2c648fd): a
+LockedHierarchicalMachine, model 0 with one context of its own, one thread, one event — the model
+context is entered after the machine contexts and exited before them; the monitor accepts -/
+def hsmWitness : Cfg := { hsm := true, base := [], extra := [(0, [.user 7])] }
+
+example :
+    let progs : Nat → List Op := fun t => if t = 0 then [.call 1 0, .cb 0, .ret false] else []
+    let s := runSched hsmWitness (fun _ m => m) (init progs 0) [0, 0, 0, 0, 0, 0, 0, 0, 0]
+    s.trace = [.callBegin 0 1 0, .enter 0 (.lock 0), .enter 0 .ident, .enter 0 (.user 7), .cb 0 0,
+               .exit 0 (.user 7), .exit 0 .ident, .exit 0 (.lock 0), .callEnd 0 false] ∧
+    contextsOrderDone (configured hsmWitness) 1 s.trace = true := by decide
+
+/-- … and a trace in which the hierarchical machine skips the model context (the old behaviour) is
+rejected by the monitor -/
+example : contextsOrder (configured hsmWitness)
+    [.callBegin 0 1 0, .enter 0 (.lock 0), .enter 0 .ident, .cb 0 0] = false := by decide
 
 /-- default configuration (PicklableLock + ident) and a model context -/
 example : WF { hsm := false, base := [], extra := [(0, [.user 7])] } 0 := by decide
